@@ -256,14 +256,24 @@ theorem selected_exact (o : Opts) (found : Bool) (lex : List Char → List Line)
       (∀ a b, o.lineRange = some (a, b) →
         sel = ((srcLines (expandTabs o.tabSize (shownCode o code))).take b.toNat).drop (a - 1).toNat) := by
   have hcl := hclean.expandTabs o.tabSize
-  obtain ⟨m, text, hhl, _, hrs, hm, hnone, hsome⟩ :=
+  obtain ⟨m, text, hhl, hpre, hrs, hm, hnone, hsome⟩ :=
     highlight_lines found (lex (expandTabs o.tabSize (shownCode o code))) (expandTabs o.tabSize (shownCode o code)) o.lineRange hcl hlex
+  have hnc : ∀ c ∈ removeSuffixNL text, isStripCtl c = false := by
+    intro c hc
+    have h1 : c ∈ text := by
+      unfold removeSuffixNL at hc
+      split at hc
+      · exact List.dropLast_subset _ hc
+      · exact hc
+    rcases mem_ensureNL (hpre.subset h1) with h2 | h2
+    · exact (hcl c h2).1
+    · subst h2; decide
   obtain ⟨hne, hno, _, _⟩ := ensureNL_srcLines (expandTabs o.tabSize (shownCode o code))
   have hLc := srcLines_clean hcl
   generalize srcLines (expandTabs o.tabSize (shownCode o code)) = L at *
   have htake_no : ∀ l ∈ L.take m, '\n' ∉ l := fun l hl => hno l (List.mem_of_mem_take hl)
   unfold selectedLines
-  simp only [hhl, hg]
+  simp only [hhl, hg, textSplitC_eq _ _ hnc]
   cases hr : o.lineRange with
   | none =>
     have hsplit : textSplit (removeSuffixNL text) false = popBlank (L.take m) := by
